@@ -95,6 +95,47 @@ def gen_spec(rng, nmax=8, p_lit=0.2, p_dep=0.25, p_kw=0.3, cyclic=False):
     return {"nodes": nodes, "deps": deps}
 
 
+def gen_hub_spec(rng):
+    """A plan built around literal JUNCTIONS: a literal with m predecessors and n successors, all through plain dependency
+    edges (the shape `_prune_literal_if_trivial` contracts when m*n <= m+n, and keeps otherwise), optionally two such
+    literals in a row, with ordinary calls around them.  Every predecessor and successor is a call, so that the order the
+    junction imposes is observable."""
+    nodes, deps = [], []
+
+    def call(args=()):
+        i = len(nodes)
+        nodes.append({"id": i, "kind": "call", "args": [{"n": a} for a in args], "kwargs": [], "scope": []})
+        return i
+
+    def lit():
+        i = len(nodes)
+        nodes.append({"id": i, "kind": "lit", "scope": []})
+        return i
+
+    roots = [call() for _ in range(rng.choice([0, 1, 2]))]
+    m = rng.choice([1, 2, 2, 2, 3, 3])
+    preds = [call([rng.choice(roots)] if roots and rng.random() < 0.5 else []) for _ in range(m)]
+    hub = lit()
+    deps += [[p, hub] for p in preds]
+    last = hub
+    if rng.random() < 0.35:                       # a second junction right behind the first
+        extra = [call() for _ in range(rng.choice([0, 1, 2]))]
+        hub2 = lit()
+        deps.append([hub, hub2])
+        deps += [[p, hub2] for p in extra]
+        if rng.random() < 0.5:
+            s0 = call()
+            deps.append([hub, s0])
+        last = hub2
+    n = rng.choice([1, 1, 2, 2, 3])
+    for _ in range(n):
+        s = call([rng.choice(preds + roots)] if rng.random() < 0.3 else [])
+        deps.append([last, s])
+        if rng.random() < 0.3:
+            call([s])
+    return {"nodes": nodes, "deps": deps}
+
+
 def build(spec, rec, failing=None):
     """Returns (plan, {id: Node}, raised) built through Plan.call / Plan.lit / Plan.add_dependency."""
     failing = failing or {}
